@@ -1440,6 +1440,14 @@ impl StoryState {
         Ok(())
     }
 
+    #[cfg(feature = "verif")]
+    pub(crate) fn verif_named_flow_keys(&self) -> Vec<String> {
+        match &self.named_flows {
+            Some(f) => f.keys().cloned().collect(),
+            None => Vec::new(),
+        }
+    }
+
     pub(crate) fn remove_flow_internal(&mut self, flow_name: &str) -> Result<(), StoryError> {
         if flow_name.eq(DEFAULT_FLOW_NAME) {
             return Err(StoryError::BadArgument(
